@@ -127,7 +127,7 @@ func resolveShim(w *World) *shimModel {
 	if lock := m.Methods["Lock"]; lock != nil {
 		for _, b := range bools {
 			for _, a := range w.FieldAccesses(m.Server, b) {
-				if a.Fn == lock && a.Kind == "write" {
+				if (a.Fn == lock || w.inTree(lock, a.Fn)) && a.Kind == "write" {
 					m.fLocked = b
 				}
 			}
